@@ -69,6 +69,11 @@ pub struct World {
     pub log_patches: bool,
     /// cursors taken at earlier points of the scenario: (object, cursor, mode) (C26)
     pub cursors: Vec<(automerge::ObjId, automerge::Cursor, &'static str)>,
+    /// object ids captured as live values on some replica at an earlier point (C30)
+    pub idreg: Vec<automerge::ObjId>,
+    /// number actors downwards (k -> 18 - k) so that every new actor sorts BEFORE the existing ones
+    /// in the documents' actor tables (C30)
+    pub desc_actors: bool,
 }
 
 impl World {
@@ -84,6 +89,8 @@ impl World {
             inflight: vec![],
             log_patches: false,
             cursors: vec![],
+            idreg: vec![],
+            desc_actors: false,
         };
         w.log.push(json!({"ev":"reset","enc":enc_name(enc),"scn":scenario,"family":family}));
         w
@@ -161,7 +168,12 @@ impl World {
         self.log.push(ev);
     }
 
+    fn amap(&self, actor: u8) -> u8 {
+        if self.desc_actors && actor < 18 { 18 - actor } else { actor }
+    }
+
     pub fn add_rep(&mut self, actor: u8) -> usize {
+        let actor = self.amap(actor);
         let d = Automerge::new_with_encoding(self.enc).with_actor(ActorId::from(vec![actor]));
         self.reps.push(d);
         let r = self.reps.len() - 1;
@@ -351,6 +363,7 @@ impl World {
     }
 
     pub fn fork(&mut self, from: usize, actor: u8) -> usize {
+        let actor = self.amap(actor);
         let d = self.reps[from].fork().with_actor(ActorId::from(vec![actor]));
         self.reps.push(d);
         let r = self.reps.len() - 1;
@@ -360,6 +373,7 @@ impl World {
     }
 
     pub fn fork_at(&mut self, from: usize, heads: &[ChangeHash], actor: u8) -> Option<usize> {
+        let actor = self.amap(actor);
         match self.reps[from].fork_at(heads) {
             Ok(d) => {
                 self.reps.push(d.with_actor(ActorId::from(vec![actor])));
@@ -377,6 +391,7 @@ impl World {
     }
 
     pub fn set_actor(&mut self, r: usize, actor: u8) {
+        let actor = self.amap(actor);
         let ev = json!({"ev":"setactor","r":r+1,"actor":actor as i64,"res":"ok"});
         self.guarded(r, ev, |w| {
             w.reps[r].set_actor(ActorId::from(vec![actor]));
@@ -721,6 +736,142 @@ impl World {
                 list.push(json!({"obj": enc::exid(obj), "id": proj::cursor_id(c), "mode": mode, "pos": pos}));
             }
             json!({"res":"ok","list":list})
+        });
+    }
+}
+
+fn summarize<R: ReadDoc>(doc: &R, id: &automerge::ObjId) -> J {
+    match doc.object_type(id) {
+        Ok(t) => {
+            let mut keys: Vec<String> = vec![];
+            let mut len = 0usize;
+            let mut text: Vec<String> = vec![];
+            match t {
+                automerge::ObjType::Map | automerge::ObjType::Table => {
+                    keys = doc.keys(id).map(|k| enc::safe_str(&k)).collect();
+                    keys.sort();
+                }
+                automerge::ObjType::List => len = doc.length(id),
+                automerge::ObjType::Text => {
+                    len = doc.length(id);
+                    text = doc.text(id).map(|s| enc::str_tokens(&s)).unwrap_or_else(|_| vec!["ERR".into()]);
+                }
+            }
+            json!({"ty": enc::objtype_str(t), "keys": keys, "len": len as i64, "text": text})
+        }
+        Err(_) => json!({"ty":"err","keys":[],"len":0,"text":[]}),
+    }
+}
+
+impl World {
+    /// C30: remember the ids of all objects replica r can reach, as the live values its API returns
+    pub fn take_ids(&mut self, r: usize) {
+        if self.dead {
+            return;
+        }
+        let mut todo: Vec<automerge::ObjId> = vec![automerge::ObjId::Root];
+        let mut seen: Vec<automerge::ObjId> = vec![];
+        while let Some(o) = todo.pop() {
+            let d = &self.reps[r];
+            let props: Vec<automerge::Prop> = match d.object_type(&o) {
+                Ok(automerge::ObjType::Map) | Ok(automerge::ObjType::Table) => d.keys(&o).map(automerge::Prop::Map).collect(),
+                Ok(_) => (0..d.length(&o)).map(automerge::Prop::Seq).collect(),
+                Err(_) => vec![],
+            };
+            for p in props {
+                if let Ok(all) = d.get_all(&o, p) {
+                    for (v, id) in all {
+                        if v.is_object() && !seen.contains(&id) {
+                            seen.push(id.clone());
+                            todo.push(id);
+                        }
+                    }
+                }
+            }
+        }
+        for id in seen {
+            if !self.idreg.contains(&id) && self.idreg.len() < 24 {
+                self.idreg.push(id);
+            }
+        }
+    }
+
+    /// C30: use every remembered id on replica r: as the live value (whose actor-index hint comes from
+    /// another replica / an earlier actor table), with perturbed hints, after to_bytes/try_from and
+    /// through its string form; reads and one edit (on a clone) through each form.
+    pub fn probe_ids(&mut self, r: usize) {
+        if self.idreg.is_empty() {
+            return;
+        }
+        let ev = json!({"ev":"idprobe","r":r+1});
+        self.guarded(r, ev, |w| {
+            let mut list = vec![];
+            for id in &w.idreg {
+                let mut forms: Vec<(String, Option<automerge::ObjId>)> = vec![("live".into(), Some(id.clone()))];
+                if let automerge::ObjId::Id(c, a, h) = id {
+                    forms.push(("hint+1".into(), Some(automerge::ObjId::Id(*c, a.clone(), h + 1))));
+                    forms.push(("hint0".into(), Some(automerge::ObjId::Id(*c, a.clone(), 0))));
+                    forms.push(("hint9".into(), Some(automerge::ObjId::Id(*c, a.clone(), 9))));
+                }
+                forms.push(("bytes".into(), automerge::ObjId::try_from(id.to_bytes().as_slice()).ok()));
+                forms.push(("str".into(), w.reps[r].import(&id.to_string()).ok().map(|x| x.0)));
+                let mut res = vec![];
+                for (name, f) in forms {
+                    let mut rec = match &f {
+                        Some(f) => summarize(&w.reps[r], f),
+                        None => json!({"ty":"err","keys":[],"len":0,"text":[]}),
+                    };
+                    rec["form"] = json!(name);
+                    // one edit through this form, on a clone
+                    if let Some(f) = &f {
+                        let mut c = w.reps[r].clone();
+                        let mut tx = c.transaction();
+                        let er = match rec["ty"].as_str().unwrap_or("err") {
+                            "list" => tx.insert(f, 0, 1i64),
+                            "text" => tx.splice_text(f, 0, 0, "z"),
+                            _ => tx.put(f, "zz", 1i64),
+                        };
+                        tx.commit();
+                        rec["edit"] = json!(if er.is_ok() { "ok" } else { "err" });
+                        rec["after"] = summarize(&c, f);
+                    } else {
+                        rec["edit"] = json!("err");
+                        rec["after"] = json!({"ty":"err","keys":[],"len":0,"text":[]});
+                    }
+                    res.push(rec);
+                }
+                list.push(json!({"id": enc::exid(id), "results": res}));
+            }
+            json!({"res":"ok","list":list})
+        });
+    }
+}
+
+impl World {
+    /// C40: load replica r's save with StringMigration::ConvertToText and log what came out
+    pub fn migrate(&mut self, r: usize) {
+        let ev = json!({"ev":"migrate","r":r+1});
+        let enc_ = self.enc;
+        self.guarded(r, ev, |w| {
+            let bytes = w.reps[r].save();
+            let loaded = Automerge::load_with_options(
+                &bytes,
+                LoadOptions::new()
+                    .text_encoding(enc_)
+                    .migrate_strings(automerge::StringMigration::ConvertToText),
+            );
+            match loaded {
+                Ok(d) => {
+                    let before: std::collections::BTreeSet<ChangeHash> =
+                        w.reps[r].get_changes(&[]).iter().map(|c| c.hash()).collect();
+                    let all = d.get_changes(&[]);
+                    let applied: Vec<ChangeHash> = all.iter().map(|c| c.hash()).collect();
+                    let added: Vec<J> = all.iter().filter(|c| !before.contains(&c.hash())).map(World::chgdef).collect();
+                    json!({"res":"ok","mapplied": enc::hashes_sorted(&applied), "mheads": enc::hashes_sorted(&d.get_heads()),
+                           "added": added, "mview": proj::view(&d, None)})
+                }
+                Err(e) => json!({"res": calls::err_name(&e)}),
+            }
         });
     }
 }
